@@ -12,7 +12,7 @@ def run(ctx, rep):
     P = ctx.prog
     rep.explanation = ('Decided: plan selection structure of block_is_enabled (unused never, bad always, full all, new = justsynced, bad plan = nothing else, auto = time limit + tie count); '
                        'marking/refresh typestate (shared with C04); scrub has no data or parity write effect; option validation. Percentages, ages and eventual coverage are arithmetic over run-time values: not decided.')
-    rep.rule('R-C15-1', 'block_is_enabled: unused positions never selected; bad always selected before any plan test; plan constants map to the documented returns', 3)
+    rep.rule('R-C15-1', 'block_is_enabled over its finite domain (plan named on the command line x every info word class): unused never; bad always; -p full all; -p bad nothing else; -p new exactly the just-synced', 37)
     rep.rule('R-C15-2', 'marking typestate (R-C04-4) and unsynced rule (R-C04-3u)', 4)
     rep.rule('R-C15-3', 'scrub reaches no DATA / PARITY effect; parity opened read-only', 2)
     rep.rule('R-C15-4', 'plan/olderthan validation; times sorted before limits are derived', 2)
@@ -22,48 +22,52 @@ def run(ctx, rep):
         raise AnalysisBroken('scrub block_is_enabled not found')
     f = cands[0]
     rep.analysed(f)
-    rets = {}   # stores into retval: (value expr, inst)
-    st = [i for i in f.all_insts() if i.op == 'store' and f.expr(i.ops[1]) == '&retval']
-    ig = list(f.calls('info_get'))
-    ib = list(f.calls('info_get_bad'))
-    # unused: first branch after info_get tests info == 0 and returns 0
-    first = None
-    for b in range(len(f.blocks)):
-        t = f.term(b)
-        if t.op == 'br' and len(t.ops) == 3 and f.expr(t.ops[0]) == '(info==0)':
-            first = t
-    ok = first is not None and ig and f.dominates(ig[0], first)
-    if ok:
-        zb = first.ops[2][1]
-        zs = [s for s in st if s.block == zb]
-        ok = len(zs) == 1 and f.const_of(zs[0].ops[0]) == 0 and all(f.dominates(first, s) for s in st)
-    rep.check(ok, 'R-C15-1', 'unused positions (info == 0) return 0 before anything else', f.file, '', function='block_is_enabled', construct='unused')
-    # bad: branch on info_get_bad returns 1 and dominates the plan switch
-    sw = [f.term(b) for b in range(len(f.blocks)) if f.term(b).op == 'switch']
-    okb = len(ib) == 1 and len(sw) == 1
-    if okb:
-        brs = C04.cond_branches_on_call(f, ib[0])
-        okb = len(brs) == 1
-        if okb:
-            br, ci = brs[0]
-            tb = br.ops[2][1] if ci.pred == 'ne' else br.ops[1][1]
-            os_ = [s for s in st if s.block == tb]
-            okb = len(os_) == 1 and f.const_of(os_[0].ops[0]) == 1 and f.dominates(br, sw[0])
-    rep.check(okb, 'R-C15-1', 'bad stripes return 1 before the plan is consulted', f.file, '', function='block_is_enabled', construct='bad first')
-    # plan mapping: constants recovered from state_scrub's if-chain (SCRUB_* are macros)
     s = P.fn('state_scrub')
     rep.analysed(s)
-    # case -> returned expression
-    cases = {}
-    if sw:
-        for cv, cb in sw[0].cases:
-            vals = [f.expr(x.ops[0]) for x in st if x.block == cb]
-            cases[cv] = vals[0] if vals else None
-    # identify plan constants by their unique behaviours
-    full = [k for k, v in cases.items() if v == '1']
-    badp = [k for k, v in cases.items() if v == '0']
-    newp = [k for k, v in cases.items() if v and 'info_get_justsynced' in v]
-    rep.check(len(full) == 1 and len(badp) == 1 and len(newp) == 1, 'R-C15-1', 'plan switch: one plan returns 1 (full), one returns 0 (bad), one returns info_get_justsynced (new)', f.file, str(cases), function='block_is_enabled', construct='plan switch')
+    # plan constants as the command line names them (main: strcmp(optarg, "bad"|"new"|"full") -> plan = K)
+    m_ = P.fn('main')
+    pv = {}
+    for c_ in m_.calls('strcmp'):
+        nm = m_.expr(c_.ops[1]).strip('"')
+        if nm not in ('bad', 'new', 'full'):
+            continue
+        for u in m_.users.get(c_.id, ()):
+            if u.op == 'icmp':
+                for br in m_.users.get(u.id, ()):
+                    if br.op == 'br' and len(br.ops) == 3:
+                        tb = br.ops[2][1] if u.pred == 'eq' else br.ops[1][1]
+                        for i_ in m_.blocks[tb]:
+                            if i_.op == 'store' and m_.const_of(i_.ops[0]) is not None and m_.expr(i_.ops[1]).lstrip('&') == 'plan':
+                                pv[nm] = m_.const_of(i_.ops[0])
+    if set(pv) != {'bad', 'new', 'full'}:
+        raise AnalysisBroken('main: plan names bad/new/full not resolved to constants (%s)' % pv)
+    full, badp, newp = [pv['full']], [pv['bad']], [pv['new']]
+    lay_ = P.distructs.get('snapraid_plan')
+    po = {m['name']: m['off'] for m in lay_['members']}
+    mk_ = (P.variants('info_make') or [None])[0]
+    if mk_ is None:
+        raise AnalysisBroken('info_make not found')
+    def enabled(planv, info, timelimit=0, lastlimit=0):
+        R = region.Region(P, extern=lambda ins, args: ((info,) if ins.callee == 'info_get' else None))
+        pp = region.P_(('obj', 'plan'), 0)
+        R.mem[(pp.reg, po['plan'])] = planv & 0xffffffff
+        R.mem[(pp.reg, po['state'])] = region.P_(('obj', 'state'), 0)
+        R.mem[(pp.reg, po['timelimit'])] = timelimit; R.mem[(pp.reg, po['lastlimit'])] = lastlimit; R.mem[(pp.reg, po['countlast'])] = 0
+        return R.run(f, 0, [pp, 3])
+    infos = {}
+    for b_ in (0, 1):
+        for r_ in (0, 1):
+            for j_ in (0, 1):
+                infos[(b_, r_, j_)] = region.Region(P).run(mk_, 0, [1600, b_, r_, j_])
+    for pname, planv in sorted(list(pv.items()) + [('auto', -1), ('50%', 50)]):
+        got0 = enabled(planv, 0, timelimit=1 << 40, lastlimit=9)
+        rep.check(not got0, 'R-C15-1', 'plan %s: an unused position (no info) is never selected' % pname, f.file, 'returns %s' % got0, function='block_is_enabled', construct='unused %s' % pname)
+        for (b_, r_, j_), w in sorted(infos.items()):
+            if pname in ('auto', '50%') and not b_:
+                continue        # the time-limit part of the numeric plans is decided by R-C15-5
+            got = 1 if enabled(planv, w) else 0
+            want = 1 if b_ else {'full': 1, 'bad': 0, 'new': j_}.get(pname, 1)
+            rep.check(got == want, 'R-C15-1', 'plan %s, stripe bad=%d rehash=%d justsynced=%d' % (pname, b_, r_, j_), f.file, 'selected: %d, the plan says %d' % (got, want), function='block_is_enabled', construct='plan table %s' % pname)
     # the time-limit / tie-count part of the auto plan is decided semantically by R-C15-5 (no expression-shape rule)
 
     # R-C15-2 shared with C04
